@@ -845,8 +845,14 @@ impl Circuit<F> for GenCircuit {
     }
 
     fn configure_with_params(meta: &mut ConstraintSystem<F>, spec: Spec) -> GenConfig {
-        let constants = meta.fixed_column();
-        meta.enable_constant(constants);
+        // a constants column (fixed, equality-enabled) only when the circuit pins a cell to a
+        // constant: circuits without any copy constraint then have an empty permutation argument
+        let plan0 = build_plan(&spec, 0);
+        let uses_constants = plan0.regions.iter().any(|rp| rp.checks.iter().any(|c| matches!(c, Check::Pinned { .. })) || rp.assigns.iter().any(|a| matches!(a.how, How::FromConstant(_))));
+        if uses_constants {
+            let constants = meta.fixed_column();
+            meta.enable_constant(constants);
+        }
         let mut advice_by_idx: Vec<Option<Column<Advice>>> = vec![None; spec.advice.len()];
         for idx in spec.allocation() {
             let a = &spec.advice[idx];
@@ -863,7 +869,7 @@ impl Circuit<F> for GenCircuit {
         let advice: Vec<Column<Advice>> = advice_by_idx.into_iter().map(|c| c.expect("allocation order is a permutation")).collect();
         // equality: needed wherever a copy touches the column; plus mask
         let mut need_eq = vec![false; advice.len()];
-        let plan = build_plan(&spec, 0);
+        let plan = plan0;
         for rp in &plan.regions {
             for ch in &rp.checks {
                 match ch {
